@@ -26,6 +26,7 @@ type Obligation struct {
 	Pos     string
 	Path    int
 	Trivial bool
+	Props   []string // property tags of the clause (empty: demanded by every check)
 	// results
 	Status string // discharged, failed-sat, failed-unknown
 	Solver string
